@@ -329,3 +329,54 @@ Example c05_ex_junk_auth_hidden :
 Proof. reflexivity. Qed.
 Example c05_ex_acc_junk_auth : acc_defacs (Some (mkDefacs [cJ; 33] [])) = (31, 0) /\ acc_defacs None = (63, 0).
 Proof. split; reflexivity. Qed.
+
+(* --- the mode text of an EXISTING subscription: {set sub.mode} / {sub set.sub.mode} on a group or
+   p2p topic (thisUserSub: the user's own want; anotherUserSub: the given set by an administrator /
+   the p2p peer; replyOfflineTopicSetSub: own want from a session that is not attached).
+   [ss_modes w g r] = the (want, given) the subscription holds after outcome r --- *)
+
+(* an empty text changes neither want nor given (own want: for a subscription that has not banned
+   itself; there the empty text means "default" by design, see c05_ex_unselfban) *)
+Theorem c05_subtext_empty_no_change : forall cat af w g,
+  (forall owner, is_joiner w = true ->
+     ss_modes w g (this_user_sub_existing cat owner af w g []) = Some (w, g)) /\
+  (forall hm ho to, ss_modes w g (another_user_sub_existing cat hm ho to w g []) = Some (w, g)) /\
+  offline_set_sub cat w g [] = SsDone 304 w g.
+Proof.
+  intros cat af w g. split; [|split].
+  - intros owner Hj. rewrite (this_empty_no_change cat owner af w g Hj). reflexivity.
+  - intros hm ho to. rewrite (another_empty_no_change cat hm ho to w g). destruct (is_sharer hm); reflexivity.
+  - exact (offline_sub_empty cat w g).
+Qed.
+Print Assumptions c05_subtext_empty_no_change.
+
+(* text that is not a mode text is rejected with an error reply and nothing is written *)
+Theorem c05_subtext_rejected_unchanged : forall cat af w g s, parse_acs s = None ->
+  (forall owner, this_user_sub_existing cat owner af w g s = SsErr 400) /\
+  (forall hm ho to, another_user_sub_existing cat hm ho to w g s = SsErr 400 \/
+                    another_user_sub_existing cat hm ho to w g s = SsErr 403) /\
+  offline_set_sub cat w g s = SsErr 500.
+Proof.
+  intros cat af w g s H. split; [|split].
+  - intros owner. exact (this_rejected cat owner af w g s H).
+  - intros hm ho to. rewrite (another_rejected cat hm ho to w g s H). destruct (is_sharer hm); [left|right]; reflexivity.
+  - exact (offline_sub_rejected cat w g s H).
+Qed.
+Print Assumptions c05_subtext_rejected_unchanged.
+
+(* the p2p sanitising (& ModeCP2P, +A) of the given applies to a supplied set (and by
+   c05_subtext_empty_no_change to nothing else) *)
+Theorem c05_subtext_p2p_supplied_sanitised : forall hm ho w g s m,
+  s <> [] -> parse_acs s = Some m -> is_admin hm = true ->
+  another_user_sub_existing SP2P hm ho false w g s =
+    (let g' := N.lor (N.land (N.land m ModeBitmask) ModeCP2P) ModeApprove in
+     if g' =? g then SsDone 304 w g else SsDone 200 w g').
+Proof. exact another_p2p_supplied. Qed.
+Print Assumptions c05_subtext_p2p_supplied_sanitised.
+
+Example c05_ex_sub_empty : this_user_sub_existing SP2P false 0 23 95 [] = SsDone 304 23 95.
+Proof. reflexivity. Qed.
+Example c05_ex_unselfban : this_user_sub_existing SGrp false 47 46 47 [] = SsDone 200 47 47.
+Proof. reflexivity. Qed.
+Example c05_ex_peer_given : another_user_sub_existing SP2P 31 false false 31 31 [cJ; cR; cW; cD] = SsDone 200 31 23.
+Proof. reflexivity. Qed.
